@@ -1,6 +1,6 @@
 (* Pins_C14.v — the statements of Props_C14.v, pinned. *)
 From Coq Require Import Permutation Sorted.
-From FV Require Import Base ReportModel ReportProofs Props_C14.
+From FV Require Import Base ReportModel ReportProofs ReportProofs2 Props_C14.
 Open Scope N_scope.
 Check C14_stats_totals : forall flt gs,
   s_groups (stats_of flt gs) = N.of_nat (length gs) /\
@@ -30,3 +30,19 @@ Check C14_roots_contiguous : forall r rs l,
     ++ concat (group_by_id (filter (fun f => is_none (root_idx (r :: rs) (fpath f))) s)).
 Check C14_finalize_idempotent : forall flt gs,
   Forall (fun g => NoDup (map fpath (gfiles g))) gs -> finalize flt (finalize flt gs) = finalize flt gs.
+Check C14_subgroups_cover : forall files rs b,
+  sum_lengths (subgroups files rs b) = N.of_nat (length files).
+Check C14_redundant_bounded : forall flt gs,
+  s_red_files (stats_of flt gs) <= s_files (stats_of flt gs) /\
+  s_red_size (stats_of flt gs) <= s_size (stats_of flt gs).
+Check C14_redundant_strict : forall g flt rf, repl flt = Over rf -> gfiles g <> [] ->
+  redundant_spec g flt < N.of_nat (length (gfiles g)).
+Check C14_redundant_missing_exclusive : forall flt gs,
+  match repl flt with
+  | Over _ => s_mis_files (stats_of flt gs) = 0 /\ s_mis_size (stats_of flt gs) = 0
+  | Under _ => s_red_files (stats_of flt gs) = 0 /\ s_red_size (stats_of flt gs) = 0
+  end.
+Check C14_finalize_keeps_counts : forall flt gs,
+  length (finalize flt gs) = length gs /\
+  Forall2 (fun g h => glen g = glen h /\ ghash g = ghash h /\ Permutation (gfiles g) (gfiles h))
+          (finalize flt gs) (sort_groups gs).
